@@ -221,6 +221,14 @@ func cmdCheck(args []string) int {
 			reports = append(reports, rep)
 			continue
 		}
+		if len(c.SQLTexts) > 0 {
+			// a proved function whose callee contracts assume the meaning of its SQL: the statements are pinned too
+			rep := CheckSQLPins(P, fn, c)
+			rep.Func += " (sql)"
+			mu.Lock()
+			reports = append(reports, rep)
+			mu.Unlock()
+		}
 		for _, bc := range append([]*FuncContract{c}, c.Behaviors...) {
 			if bc.Trusted {
 				continue
